@@ -232,6 +232,54 @@ func TestVF_C12(t *testing.T) {
 			}})
 		}
 	}
+	// entry headers inside an archive stream (they travel inside DATA, out of reach of the line mutator): hostile
+	// field values written straight into the real archive writer
+	hdrs := vfHostileArchiveHeaders()
+	for hi := range hdrs {
+		hi := hi
+		cases = append(cases, vfCase{ID: fmt.Sprintf("archdr-%d", hi), Run: func(c *vfCtx) {
+			h := hdrs[hi]
+			dest := filepath.Join(c.Dir, "dst")
+			os.MkdirAll(dest, 0755)
+			for variant := 0; variant < 3; variant++ {
+				vd := filepath.Join(dest, fmt.Sprintf("v%d", variant))
+				os.MkdirAll(vd, 0755)
+				_, w, _, err := vfArchiveConsume(vd, `{"path_id":0,"path_name":["top"],"is_dir":true,"archive":true,"size":100}`)
+				if err != nil || w == nil {
+					c.Inconc("cannot create the archive writer: %v", err)
+					return
+				}
+				good := encodeString(`{"path_id":0,"path_name":["top","ok.txt"],"is_dir":false,"archive":false,"size":3}`) + "\nabc"
+				stream := []byte(good + encodeString(h.JSON) + "\n" + "payload bytes after the hostile header" + good)
+				done := make(chan error, 1)
+				go func() {
+					var err error
+					switch variant {
+					case 0:
+						err = writeAll(w, stream)
+					case 1:
+						for i := 0; i < len(stream) && err == nil; i++ {
+							err = writeAll(w, stream[i:i+1])
+						}
+					default:
+						for i := 0; i < len(stream) && err == nil; i += 7 {
+							err = writeAll(w, stream[i:vfMin(len(stream), i+7)])
+						}
+					}
+					w.Close()
+					done <- err
+				}()
+				select {
+				case <-done:
+				case <-time.After(20 * time.Second):
+					c.Viol("c12-archive-header-hang", "archive writer still busy 20 s after a stream with entry header %s", h.JSON)
+					return
+				}
+			}
+			c.SetAdd("attacked_fields", "archive-entry:"+h.Name)
+			c.Nontrivial("archive entry header " + h.Name)
+		}})
+	}
 	// unstructured input into the scanners
 	nf := vfPick(40, 600)
 	for i := 0; i < nf; i++ {
@@ -359,6 +407,28 @@ func vfAttackCase(c *vfCtx, sc vfScenario, a vfAttack, ai, si int) {
 	if (ai+si)%97 == 0 {
 		c.Sample(map[string]interface{}{"scenario": sc.Name, "attack": map[string]interface{}{"from": a.From, "type": a.Type, "occurrence": a.Occ, "field": a.Field, "value": vfHeadS(a.Value, 40)}, "attacked_role_outcome": ao.Kind + ": " + vfClip(ao.Text)})
 	}
+}
+
+type vfHostileHdr struct{ Name, JSON string }
+
+func vfHostileArchiveHeaders() []vfHostileHdr {
+	var out []vfHostileHdr
+	for _, sz := range []string{"-1", "-5", "-9223372036854775808", "9223372036854775807", "4611686018427387904", "0", "1e3", "\"7\"", "null", "2147483648"} {
+		out = append(out, vfHostileHdr{"size=" + sz, `{"path_id":0,"path_name":["top","f.bin"],"is_dir":false,"archive":false,"size":` + sz + `}`})
+		out = append(out, vfHostileHdr{"dir-size=" + sz, `{"path_id":0,"path_name":["top","d"],"is_dir":true,"archive":false,"size":` + sz + `}`})
+	}
+	for _, perm := range []string{"-1", "4294967295", "4294967296", "0", "\"x\""} {
+		out = append(out, vfHostileHdr{"perm=" + perm, `{"path_id":0,"path_name":["top","p.bin"],"is_dir":false,"archive":false,"size":2,"perm":` + perm + `}`})
+	}
+	for _, pn := range []string{"[]", "null", "[\"top\"]", "[\"\"]", "\"top\"", "[\"top\",\"a\",\"b\",\"c\",\"d\",\"e\",\"f\",\"g\"]", "[1,2]"} {
+		out = append(out, vfHostileHdr{"path_name=" + pn, `{"path_id":0,"path_name":` + pn + `,"is_dir":false,"archive":false,"size":2}`})
+	}
+	for _, pid := range []string{"-1", "99", "9223372036854775807", "null"} {
+		out = append(out, vfHostileHdr{"path_id=" + pid, `{"path_id":` + pid + `,"path_name":["top","q.bin"],"is_dir":false,"archive":false,"size":2}`})
+	}
+	out = append(out, vfHostileHdr{"archive-in-archive", `{"path_id":0,"path_name":["top","inner"],"is_dir":true,"archive":true,"size":50}`})
+	out = append(out, vfHostileHdr{"not-json", `{{{`}, vfHostileHdr{"empty", ``}, vfHostileHdr{"array", `[1,2,3]`})
+	return out
 }
 
 // vfFuzzCase throws unstructured bytes at a filter with every option on and at the standalone scanners.
